@@ -289,6 +289,10 @@ func (bf *boundsFn) classifyLoop(li *loopInfo) (string, string) {
 				n := calleeName(ci) + "("
 				for _, c := range consumingCalls {
 					if strings.Contains(n, c) && exitsOn(ci) {
+						if why := givesBackInput(li); why != "" {
+							wrapWhy = why
+							continue
+						}
 						return "reader-driven (every iteration consumes input and the loop ends when the read fails)", ""
 					}
 				}
@@ -673,4 +677,77 @@ func cursorMovedBack(li *loopInfo, obj ssa.Value, cur nilField, B *Bounds) bool 
 		}
 	}
 	return false
+}
+
+// givesBackInput: the reader-driven argument (“every iteration consumes
+// input”) is void when the loop also hands input back (UnreadByte, UnreadRune,
+// Seek, Reset). In that case every path from the loop head to a back edge must
+// consume more than it gives back; returns a description of a path that does
+// not, "" when all do (or nothing is given back).
+func givesBackInput(li *loopInfo) string {
+	back := func(name string) bool {
+		return strings.HasSuffix(name, ".UnreadByte") || strings.HasSuffix(name, ".UnreadRune") || strings.HasSuffix(name, ".Seek") || strings.HasSuffix(name, ".Reset")
+	}
+	takes := func(name string) bool {
+		for _, c := range []string{"io.ReadFull", "io.ReadAtLeast", ".ReadByte", ".ReadRune", ".Next"} {
+			if strings.HasSuffix(name, c) {
+				return true
+			}
+		}
+		return strings.HasSuffix(name, ".Read")
+	}
+	any := false
+	for b := range li.body {
+		for _, ins := range b.Instrs {
+			if ci, ok := ins.(ssa.CallInstruction); ok && back(calleeName(ci)) {
+				any = true
+			}
+		}
+	}
+	if !any {
+		return ""
+	}
+	isLatch := map[*ssa.BasicBlock]bool{}
+	for _, l := range li.latch {
+		isLatch[l] = true
+	}
+	bad := ""
+	paths := 0
+	var walk func(b *ssa.BasicBlock, net int, onPath map[*ssa.BasicBlock]bool, trail []int)
+	walk = func(b *ssa.BasicBlock, net int, onPath map[*ssa.BasicBlock]bool, trail []int) {
+		if bad != "" || paths > 4096 {
+			return
+		}
+		onPath[b] = true
+		defer delete(onPath, b)
+		trail = append(trail, b.Index)
+		for _, ins := range b.Instrs {
+			if ci, ok := ins.(ssa.CallInstruction); ok {
+				switch n := calleeName(ci); {
+				case back(n):
+					net--
+				case takes(n):
+					net++
+				}
+			}
+		}
+		if isLatch[b] {
+			paths++
+			if net < 1 {
+				bad = fmt.Sprintf("the path through blocks %v back to the loop head gives back as much input as it takes", trail)
+			}
+			// a latch may also have successors inside the body; fall through
+		}
+		for _, s := range b.Succs {
+			if s == li.header || !li.body[s] || onPath[s] {
+				continue
+			}
+			walk(s, net, onPath, trail)
+		}
+	}
+	walk(li.header, 0, map[*ssa.BasicBlock]bool{}, nil)
+	if paths > 4096 {
+		return "too many paths to check that every iteration makes progress"
+	}
+	return bad
 }
